@@ -218,7 +218,12 @@ fn svc_case(job: &Job) {
     // every labelling with both classes present
     let lab = 1 + mc::choose((1usize << n) - 2);
     let y: Vec<f64> = (0..n).map(|i| if (lab >> i) & 1 == 1 { enc.1 } else { enc.0 }).collect();
-    let queries: Vec<Vec<f64>> = if dim == 1 { (0..9).map(|i| vec![i as f64 * 0.5 - 1.0]).collect() } else { (0..16).map(|i| vec![(i % 4) as f64 * 0.75 - 0.25, (i / 4) as f64 * 0.75 - 0.25]).collect() };
+    let queries: Vec<Vec<f64>> = if dim == 1 {
+        (0..9).map(|i| vec![i as f64 * 0.5 - 1.0]).collect()
+    } else {
+        // a 4 x 4 grid in the first two coordinates, the remaining coordinates cycle over {-0.5, 0.5, 1.5}
+        (0..16usize).map(|i| (0..dim).map(|c| match c { 0 => (i % 4) as f64 * 0.75 - 0.25, 1 => (i / 4) as f64 * 0.75 - 0.25, _ => ((i + c) % 3) as f64 - 0.5 }).collect()).collect()
+    };
     let mode = if dev { RngMode::Deviations } else { RngMode::All };
     svc_fit_and_check(if dev { "deviation-bounded-order" } else { "any-order" }, &pts, &y, kn, &kname, c, tol, epoch, mode, &queries);
 }
@@ -521,8 +526,8 @@ impl Harness for C10 {
         }
         // SVC, n = 5, epoch 1: all (5!)^2 = 14400 orders (thorough)
         if t {
-            for k in kernels {
-                for (c, tol, enc) in [(1.0, 1e-4, 0usize), (100.0, 1e-2, 2)] {
+            for k in ["linear", "rbf"] {
+                for (c, tol, enc) in [(1.0, 1e-4, 0usize)] {
                     for pre in prefixes(4, 3) {
                         jobs.push(Job::new(format!("svc-1d-n5-e1-{}-C{}-tol{}-enc{}-pre{:?}", k, c, tol, enc, pre), json!({"kind": "svc", "n": 5, "dim": 1, "kernel": k, "C": c, "tol": tol, "epoch": 1, "enc": enc, "pre": pre})));
                     }
@@ -596,7 +601,7 @@ impl Harness for C10 {
             case_deadline_ms: 20_000,
             floors: vec![("svc_fits", 100_000), ("svc_non_identity_orders", 100_000), ("svc_clipped_at_C", 1000), ("svr_fits", 10_000), ("svr_at_C", 100), ("svr_zero_weight_rows", 100), ("kernel_pairs", 500), ("gram_matrices", 100)],
             bounds: json!({
-                "svc_all_orders": "every x sequence over {0,1,2}^4 x every labelling with both classes x 4 kernels x (C,tol,encoding) settings x ALL (4!)^2 visiting orders (epoch 1); 2-D: every 4-subset of the 3x2 lattice; epoch 2 ((4!)^3 orders) on one sequence family (all in thorough); n=5 with all (5!)^2 orders in thorough",
+                "svc_all_orders": "every x sequence over {0,1,2}^4 x every labelling with both classes x 4 kernels x (C,tol,encoding) settings x ALL (4!)^2 visiting orders (epoch 1); 2-D: every 4-subset of the 3x2 lattice; epoch 2 ((4!)^3 orders) on one sequence family (all in thorough); n=5 with all (5!)^2 orders for the linear and RBF kernels in thorough",
                 "svc_deviation_bounded": "n=6..8 fixed point sets, epochs 1,2(,4): every schedule with at most 1 (2 thorough) non-identity Fisher-Yates steps",
                 "svr": "every x sequence over {0,1,2}^n, y over {-1,0,2}^n, n<=4 (5 thorough) x eps {0,.1,.5} x C {.1,1,100} x tol {1e-2,1e-3,1e-4} x {linear,rbf,poly}; structured sets n in {8,20,72} (also 40,80 thorough)",
                 "kernels": "every vector pair of length <=2 over {0,±1,±2} and length 3 over {0,±1} (all in thorough); Gram matrices of every point sequence n<=4",
